@@ -56,8 +56,9 @@ Proof. unfold img, mvid, pattern_floats. rewrite same_floats, same_env. reflexiv
 
 Lemma same_axiom_pat sid a : axiom_pat d1 sid a = axiom_pat d2 sid a.
 Proof.
-  unfold axiom_pat. destruct (a_stmt a) as [tc [|t r]]; [reflexivity|]. rewrite same_img. f_equal.
-  apply map_ext. intros e. apply same_img.
+  unfold axiom_pat, ants_pat, concl_pat. f_equal.
+  - apply map_ext. intros e. apply same_img.
+  - destruct (a_stmt a) as [tc [|t r]]; [reflexivity | apply same_img].
 Qed.
 
 Lemma same_target target a1 pl1 st1 a2 pl2 st2 :
@@ -107,12 +108,12 @@ Proof. unfold img. apply img0_sid_ext. Qed.
 Lemma axiom_pat_sid_ext d s1 s2 a :
   (forall c, In c (psyms (axiom_pat d (fun c => c) a)) -> s1 c = s2 c) -> axiom_pat d s1 a = axiom_pat d s2 a.
 Proof.
-  unfold axiom_pat. destruct (a_stmt a) as [tc [|t r]]; [reflexivity|]. intros H.
-  rewrite psyms_chain_imp in H. f_equal.
+  unfold axiom_pat, ants_pat, concl_pat. intros H. rewrite psyms_chain_imp in H. f_equal.
   - apply map_ext_Forall. apply Forall_forall. intros e He. apply img_sid_ext. intros c Hc. apply H.
     apply in_or_app. left. apply in_flat_map. exists (img d (fun c => c) (stmt_term (snd e))).
     split; [|exact Hc]. apply in_map_iff. exists e. split; [reflexivity | exact He].
-  - apply img_sid_ext. intros c Hc. apply H. apply in_or_app. right. exact Hc.
+  - destruct (a_stmt a) as [tc [|t r]]; [reflexivity|].
+    apply img_sid_ext. intros c Hc. apply H. apply in_or_app. right. exact Hc.
 Qed.
 
 (** ---- first-occurrence tables: positions in a prefix do not depend on what follows *)
